@@ -59,12 +59,24 @@ class Skip(Exception):
     """Step refers to a handle that is not live."""
 
 
+_NS = [0]
+
+
 class World:
     def __init__(self, fs=None):
         self.heap = {}
         self.fs = fs if fs is not None else simfs.SimFS()
         simfs.install()
         simfs.use(self.fs)
+        # Every execution gets its own path namespace: a recorded path
+        # "/simfs/x" is resolved to "/simfs/r<n>/x".  The code under test may
+        # keep process-global state keyed by file name (a cache); without this
+        # an earlier run in the same process (generation, minimisation, the
+        # in-process determinism slice) could leak into a later one.  The
+        # namespace never reaches the event log.
+        _NS[0] += 1
+        self.ns = simfs.PREFIX + f"r{_NS[0]}/"
+        self.fs.make_namespace(self.ns.rstrip("/"))
         self.next_handle = 0  # generator side only
         self.seq = 0
 
@@ -80,7 +92,15 @@ class World:
         return [h for h in sorted(self.heap) if isinstance(self.heap[h], cls)]
 
     # ---------------------------------------------------------------- decode
+    def rel(self, path):
+        """namespace-free form of a resolved path (for logs and fingerprints)"""
+        return simfs.PREFIX + path[len(self.ns):] if path.startswith(self.ns) else path
+
     def dec(self, v):
+        if isinstance(v, str):
+            if v.startswith(simfs.PREFIX):
+                return self.ns + v[len(simfs.PREFIX):]
+            return v
         if isinstance(v, dict):
             if "$h" in v:
                 h = v["$h"]
@@ -160,6 +180,8 @@ def obs_wav(w):
 
 
 def obs(o):
+    if isinstance(o, list):
+        return ("list", repr(o))
     if isinstance(o, TextgridTier):
         return obs_tier(o)
     if isinstance(o, Textgrid):
